@@ -105,7 +105,15 @@ func (s *ManagedServer) saveToFile() error {
 	}
 	b = append(b, '\n') // b has plenty of unused capacity.
 
-	if err = os.WriteFile(s.path, b, 0644); err != nil {
+	// Write to a temporary file and rename it into place, so that the file at s.path
+	// is always a complete document, even if we crash or run out of disk space mid-write.
+	tmpPath := s.path + ".tmp"
+	if err = os.WriteFile(tmpPath, b, 0644); err != nil {
+		_ = os.Remove(tmpPath)
+		return err
+	}
+	if err = os.Rename(tmpPath, s.path); err != nil {
+		_ = os.Remove(tmpPath)
 		return err
 	}
 
